@@ -51,7 +51,17 @@ def enumerate_functions(rep, tier, impl):
     # ---- independence: a non-mutating function does not hand back one of its argument containers as its result.
     # Selections (the result IS one of the inputs by definition) and conversions of a value to its own kind are exempt.
     PASS_THROUGH = {"identity", "if_empty", "if_null", "if_null_or_empty", "max", "min", "non_empty", "non_zero", "list", "set", "map", "object", "esc", "replace"}
-    APOOL = ["[]", "[5]", "[2, 1]", "[[2, 1]]", "<<>>", "<<1>>", "<<2, 1>>", "<<<>>>", "<<<1 => 2>>>", "<*x = 1*>", "'ab'", "2", "fn(x) x"]
+    APOOL = ["[]", "[5]", "[2, 1]", "[[2, 1]]", "<<>>", "<<1>>", "<<2, 1>>", "<<<>>>", "<<<1 => 2>>>", "<*x = 1*>", "'ab'", "2", "1", "8", "fn(x) x"]
+    HOLDS_ARGUMENT = {"add"}          # [] + m is [m]: the element is the operand itself, by reference
+
+    def direct_elements(r):
+        if isinstance(r, (V.ValueList, V.ValueSet)):
+            return list(r.value)
+        if isinstance(r, V.ValueMap):
+            return list(r.value.keys()) + list(r.value.values())
+        if isinstance(r, V.ValueObject):
+            return list(r.value.values())
+        return []
     aliased = {}
     for f in names:
         if f in PASS_THROUGH:
@@ -70,8 +80,12 @@ def enumerate_functions(rep, tier, impl):
                 if out[0] != "val":
                     continue
                 r = I.environment.map.get("r")
-                if isinstance(r, (V.ValueList, V.ValueSet, V.ValueMap, V.ValueObject)) and any(r is I.environment.map.get("a%d" % i) for i in range(arity)):
+                argv = [I.environment.map.get("a%d" % i) for i in range(arity)]
+                cont = [a for a in argv if isinstance(a, (V.ValueList, V.ValueSet, V.ValueMap, V.ValueObject))]
+                if isinstance(r, (V.ValueList, V.ValueSet, V.ValueMap, V.ValueObject)) and any(r is a for a in cont):
                     aliased.setdefault(f, "%s; %s(%s)" % (defs, f, args))
+                elif f not in HOLDS_ARGUMENT and any(e is a for e in direct_elements(r) for a in cont):
+                    aliased.setdefault(f, "%s; %s(%s) (the result holds the argument itself as an element)" % (defs, f, args))
     for f, prog in sorted(aliased.items()):
         rep.violation("input", "%s returns its argument itself (a later mutation of the result changes the argument): %s" % (f, prog), check="alias", function=f, program=prog)
     rep.cov["alias_violations"] = len(aliased)
